@@ -180,14 +180,15 @@ def app_term(c):
 
 def p_term(c):
     evs, _ = pevents(c["events"])
-    reply = {"ok": "(ROk %d)" % c["bid"], "failcode": "RFailCode", "error": "RError"}[c["reg_mode"]]
+    reply = reply_term(c)
     return "(TP (mkPC %s %s %s %s %s %s %s))" % (
         action_term(c["_name"]), "true" if c["in_gtx"] else "false", hx(c["xid"]), fields_term(c.get("fields")), reply, evs,
         "true" if c["outcome"] == "ok" else "false")
 
 
 def reply_term(c):
-    return {"ok": "(ROk %d)" % c["bid"], "failcode": "RFailCode", "error": "RError"}[c["reg_mode"]]
+    return {"ok": "(ROk %d)" % c["bid"], "failcode": "RFailCode", "failcode-errcode": "RFailCode", "error": "RError"}.get(
+        c["reg_mode"], "RMalformed")     # nil-reply / wrong-type / wrong-type-failed / pointer-reply
 
 
 def s_term(group):
@@ -327,7 +328,8 @@ def run(chk, replay_case=None):
                 "parameter = nil / tagged / pointer / mixed (untagged, '-', '', unexported, []byte, uint64) / nested structs, "
                 "slices, maps / embedded and pointer BusinessActionContext / duplicate and system-colliding tags / non-struct / "
                 "two pairs of DISTINCT same-named types (function-local; same package and type name under two paths), always "
-                "both prepared in one process / reflect.StructOf-generated types; 10%% outside a global transaction, 20%% registration failures), each followed by "
+                "both prepared in one process / reflect.StructOf-generated types; 10%% outside a global transaction, 25%% registrations not accepted: failure result with/without error code, transport error, malformed replies (nil, "
+                "another message type, a pointer to the response)), each followed by "
                 "1-3 phase-two requests through the real processors (commit or rollback, user methods returning every (bool, error) combination, repeated requests, "
                 "unknown resources, another action's data, empty / context-free / malformed application data). Non-trivial = a "
                 "prepare in a global transaction with at least one tagged exported field, or a request for a registered resource; "
